@@ -85,10 +85,9 @@ static int
 h4v_strcmp(const char *a, const char *b)
 {
     for (int i = 0; i <= NMLEN; i++) {
-        unsigned char x = (unsigned char)a[i], y = (unsigned char)b[i];
-        if (x != y)
-            return x < y ? -1 : 1;
-        if (x == 0)
+        if (a[i] != b[i])
+            return a[i] < b[i] ? -1 : 1; /* 7-bit names: same order as unsigned comparison */
+        if (a[i] == 0)
             return 0;
     }
     return 0;
